@@ -141,6 +141,8 @@ func (o out) String() string {
 		return fmt.Sprintf("C %d,%d,%d", o.A[0], o.A[1], o.A[2])
 	case "T":
 		return fmt.Sprintf("T %d", o.A[0])
+	case "Q":
+		return fmt.Sprintf("Q %d,%d", o.A[0], o.A[1])
 	}
 	return o.Kind
 }
